@@ -44,7 +44,7 @@ void execute(const sim::Plan& p, sim::Run& r) {
     if (c.family != fam) continue;
     if (!only.empty() && only != c.name) continue;
     pmb::Obs o; r.log(c.name);
-    c.exec(p, r, o);
+    try { c.exec(p, r, o); } catch (const sim::Failure&) { throw; } catch (const std::exception& ex) { r.fail("exception", std::string("[") + c.name + "] unexpected exception: " + ex.what()); }
     all.emplace_back(c.name, o);
   }
   if (all.empty()) r.fail("harness", "no configuration of family " + fam + " compiled in");
